@@ -57,6 +57,9 @@ def s1_docs(tier):
             if tier == "quick" and name not in ("rect", "circle", "pst", "parc", "line", "peo"):
                 continue
             yield ("S1", name, a + " " + b), doc(tpl.format(t=f' transform="{a} {b}"'))
+        if tier == "thorough" and name in ("rect", "pst", "parc", "peo"):
+            for a, b, c in itertools.product(TF, repeat=3):
+                yield ("S1", name, f"{a} {b} {c}"), doc(tpl.format(t=f' transform="{a} {b} {c}"'))
 
 
 # -- S2 -------------------------------------------------------------------
@@ -96,8 +99,8 @@ def s2_docs(tier):
         for chain in itertools.product(LEVELS, repeat=L):
             for leaf, own in itertools.product(LEAVES2, (False, True)):
                 if L == 3 and (leaf != "tri" or own):
-                    # depth 3: one leaf; full leaf variation only for chains without nested svg
-                    if any(c.startswith("svg") for c in chain) or leaf == "arc":
+                    # depth 3: full leaf variation for chains without nested svg, one leaf otherwise
+                    if any(c.startswith("svg") for c in chain):
                         continue
                 body = LEAVES2[leaf].format(t=' transform="rotate(-20) translate(3,6)"' if own else "")
                 defs = ""
@@ -107,7 +110,7 @@ def s2_docs(tier):
                 yield ("S2", "/".join(chain), leaf, own), doc('<rect x="0" y="0" width="60" height="45" fill="yellow"/>' + body, defs)
     if tier == "thorough":
         # depth 4 over the g-only sub-alphabet
-        for chain in itertools.product(["g", "gT0", "gT1", "gT2", "gT3"], repeat=4):
+        for chain in itertools.chain(itertools.product(["g", "gT0", "gT1", "gT2", "gT3"], repeat=4), itertools.product(["gT1", "useXYT", "svgVBmeet", "useT", "svgVBslice"], repeat=4)):
             body = LEAVES2["tri"].format(t="")
             defs = ""
             for k, lev in enumerate(reversed(chain)):
@@ -139,8 +142,7 @@ def s3_docs(tier):
             if tier == "thorough" and L == 2:
                 hides.append((0, 1))
             for hide in hides:
-                if L == 3 and hide and tier == "thorough" and seq[0] != seq[1] and seq[1] != seq[2] and hide[0] != 1:
-                    continue
+
                 body = "".join(ITEMS[n].format(d=' display="none"' if i in hide else "") for i, n in enumerate(seq))
                 yield ("S3", "/".join(seq), hide), doc(body, S3_DEFS)
     # display:none on the use target itself and on a group level
